@@ -218,8 +218,7 @@ def run(ctx):
         ctx.brk('oracle-certificate', 'recorded oracle value fails its specification', {'case': desc, 'cert': cert})
     ctx.cov['traces_validated_against_impl'] = len(cases)
     ctx.cov['correspondence_disagreements'] = nbad
-    if ctx.broken or ctx.thorough:
-        closed_form_search(ctx, ctx.n(300, 3000))
+    closed_form_search(ctx, ctx.n(300, 3000) if (ctx.broken or ctx.thorough) else 60)
     ctx.assumptions += ['float ** int (libm pow), EPS**(1/scale), log(1.718+|x|) are oracles: recorded and certified per run (pow in Q inside Coq to 2u; the other two against libm in Python)',
                         'exact-arithmetic theorems over R (Reals axioms) and Z; float behaviour tied by bit-exact correspondence only']
     return ctx.finish(level='proof', checker_cmd='make -C coq Props/C10.vo (coqc 8.16.1) + coqc build/cases/C10_*.v',
